@@ -1,5 +1,6 @@
 """C16 - custom schema types behave like built-ins in every position (differential monitor)."""
 import copy
+import threading
 
 from .. import oracles as O
 from ..build import build
@@ -86,6 +87,67 @@ def errsig(errs):
     return [(type(e).__name__, repr(e)) for e in errs]
 
 
+def plant(v, x, rng):
+    """v with one randomly chosen leaf position replaced by x (containers on the way are copied, not mutated)."""
+    if isinstance(v, list) and v:
+        i = rng.randrange(len(v))
+        out = list(v)
+        out[i] = plant(v[i], x, rng) if isinstance(v[i], (list, dict)) and v[i] and rng.random() < 0.7 else x
+        return out
+    if isinstance(v, dict) and v:
+        k = rng.choice(list(v))
+        out = dict(v)
+        out[k] = plant(v[k], x, rng) if isinstance(v[k], (list, dict)) and v[k] and rng.random() < 0.7 else x
+        return out
+    return x
+
+
+def other_visitors(ctx, rng, info, plain, wrapped, vals):
+    """The same comparisons through *differently configured instances* of the public visitor classes (after the default
+    ones have been used on this very schema): a custom type must follow the visitor it is handed, as a built-in does."""
+    from d42.representation import Representor
+    from d42.substitution import Substitutor
+    from d42.validation import Formatter, ValidationResult, Validator
+
+    class TaggedResult(ValidationResult):
+        pass
+    try:
+        R = Representor(name=rng.choice(("d42", "s", "sch")), indent=rng.choice((1, 2, 3)))
+        a, b = wrapped.__accept__(R), plain.__accept__(R)
+        ctx.count("other_visitor_repr_compared")
+        if a != b:
+            ctx.violation("repr_differs_under_configured_representor", {**info, "name": R.name, "wrapped_repr": a[:300], "plain_repr": b[:300]})
+    except Exception as e:  # noqa
+        ctx.violation(f"configured_representor_raised:{type(e).__name__}", {**info, "exc": O.exc_info(e)})
+    V = Validator(validation_result_factory=TaggedResult)
+    Sb = Substitutor(formatter=Formatter(root=rng.choice(("body", "response", "$"))))
+    for v in vals[:4]:
+        def run(s):
+            try:
+                return s.__accept__(V, value=v), None
+            except Exception as e:  # noqa
+                return None, e
+        (rw, xw), (rp, xp) = run(wrapped), run(plain)
+        ctx.count("other_visitor_validations_compared")
+        if (xw is None) != (xp is None) or (xw is not None and type(xw) is not type(xp)):
+            ctx.violation("validate_exception_differs_under_configured_validator", {**info, "value": enc(v)})
+        elif xw is None:
+            if type(rw) is not type(rp) or errsig(rw.get_errors()) != errsig(rp.get_errors()):
+                ctx.violation("validation_differs_under_configured_validator", {
+                    **info, "value": enc(v), "result_types": [type(rw).__name__, type(rp).__name__]})
+
+        def sub(s):
+            try:
+                return "ok", repr(s.__accept__(Sb, value=v))
+            except Exception as e:  # noqa
+                return type(e).__name__, str(e)
+        sw, sp = sub(wrapped), sub(plain)
+        ctx.count("other_visitor_substitutions_compared")
+        if sw != sp:
+            ctx.violation("substitution_differs_under_configured_substitutor", {
+                **info, "value": enc(v), "root": Sb.formatter.root, "wrapped": [sw[0], sw[1][:300]], "plain": [sp[0], sp[1][:300]]})
+
+
 def run_case(ctx, rng, case):
     from d42 import fake, represent, substitute, validate
     from d42.generation import Random
@@ -151,6 +213,14 @@ def run_case(ctx, rng, case):
     if vals:
         vals.append(partialise(tree, vals[0], rng))
     vals += [None, [], {}, ...]
+    # values that cannot be copied / pickled, or that have identity only, at the root and planted at a random position
+    # of a conforming value (a custom type must hand its hook the very object a built-in would look at)
+    hostile = [(x for x in ()), threading.Lock(), memoryview(b"ab"), {"a": 1}.keys(), object(), iter([1])]
+    vals.append(rng.choice(hostile))
+    for w in vals[:2]:
+        if isinstance(w, (list, dict)) and w:
+            for _ in range(3):
+                vals.append(plant(copy.copy(w), rng.choice(hostile), rng))
     if vals and isinstance(vals[0], (list, dict)):
         from ..gen_subst import placeholders
         ph = placeholders(vals[0], rng)
@@ -219,6 +289,7 @@ def run_case(ctx, rng, case):
                             break
                 except Exception as e:  # noqa
                     ctx.violation(f"substitution_result_unusable:{type(e).__name__}", {**info, "value": enc(v), "exc": O.exc_info(e)})
+    other_visitors(ctx, rng, info, plain, wrapped, vals)
     # generation
     sat = bool(vals) and True
     try:
